@@ -8,6 +8,7 @@ import (
 	"io"
 	"testing"
 
+	"github.com/c2FmZQ/ech"
 	"pgregory.net/rapid"
 
 	"verif/harness/ev"
@@ -63,8 +64,8 @@ func genStream(t *rapid.T, label string, max int) [][]byte {
 
 func TestC07(t *testing.T) {
 	rec := ev.Get("C07")
-	rec.Rule("first hello accepted (sealed, C03 generator) or passed through, then a client record stream (types 20-23; lengths weighted on 0 (application data), 1, 16383, 16384 and 16385..16640 for type 23), a backend stream (optional ServerHello, then records) split at drawn points over Write calls, a chunk schedule for transport reads (1 byte .. whole flight), caller buffer sizes 1..70000, and optionally a transport cut (EOF or error) at a drawn offset after the first record. Oracle: concat(Read) == rewritten hello || rest up to the cut, error only after all bytes; transport writes are a prefix of backend writes with less than one complete record withheld; Write returns (len,nil). distinct = (schedule hash, cut, record lengths); non-trivial = a record straddles two chunks or two writes")
-	rec.Mandatory("chunks_1byte", "cut_in_header", "cut_in_body", "record_len0", "record_gt16384", "accepted", "passthrough", "backend_split", "nontrivial")
+	rec.Rule("first hello accepted (sealed, C03 generator) or passed through, then a client record stream (types 20-23; lengths weighted on 0 (application data), 1, 16383, 16384 and 16385..16640 for type 23), a backend stream (optional ServerHello, then records) split at drawn points over Write calls, a chunk schedule for transport reads (1 byte .. whole flight), caller buffer sizes 1..70000, and optionally a transport cut (EOF or error) at a drawn offset after the first record; in a third of the cases the reads of a second, unrelated accepted connection are interleaved (connections share nothing). Oracle: concat(Read) == rewritten hello || rest up to the cut, error only after all bytes; transport writes are a prefix of backend writes with less than one complete record withheld; Write returns (len,nil). distinct = (schedule hash, cut, record lengths); non-trivial = a record straddles two chunks or two writes")
+	rec.Mandatory("chunks_1byte", "cut_in_header", "cut_in_body", "record_len0", "record_gt16384", "accepted", "passthrough", "backend_split", "nontrivial", "neighbour_conn")
 	rapid.Check(t, func(t *rapid.T) {
 		accepted := rapid.Bool().Draw(t, "accepted")
 		var first, wantFirst []byte
@@ -165,12 +166,48 @@ func TestC07(t *testing.T) {
 			ev.Violation(t, "C07", rp, "ECHAccepted=%v want %v", c.ECHAccepted(), accepted)
 		}
 		cl = append(cl, map[bool]string{true: "accepted", false: "passthrough"}[accepted])
+		// a neighbour: a second, unrelated accepted connection in the same process whose
+		// reads are interleaved with this one's. Connections share nothing.
+		var nb *ech.Conn
+		var nbWant, nbGot []byte
+		nbOps := 0
+		if rapid.IntRange(0, 2).Draw(t, "neighbour") == 0 {
+			nsc := drawSealed(t, false)
+			nstream := append([]byte{}, nsc.Record...)
+			nbWant = hello.Record(22, 0x0303, nsc.WantInner)
+			for i, n := 0, rapid.IntRange(1, 12).Draw(t, "nb_records"); i < n; i++ {
+				body := bytes.Repeat([]byte{byte(0x80 + i)}, rapid.IntRange(1, 400).Draw(t, "nb_len"))
+				body[0] = 11 // never a ClientHello
+				r := hello.Record(22, 0x0303, body)
+				nstream = append(nstream, r...)
+				nbWant = append(nbWant, r...)
+			}
+			var e error
+			nb, e = newConn(context.Background(), wire.New(nstream, io.EOF), echKeys(nsc.Key))
+			if e != nil || !nb.ECHAccepted() {
+				t.Fatalf("harness: neighbour connection not accepted: %v", e)
+			}
+			cl = append(cl, "neighbour_conn")
+		}
 		var got, wrote []byte
 		var ops []string
 		bpos := 0
 		readDone := false
 		split := false
 		for !readDone || bpos < len(bstream) {
+			if nb != nil && nbOps < 80 && len(nbGot) < len(nbWant) && rapid.IntRange(0, 2).Draw(t, "op_neighbour") == 0 {
+				nbOps++
+				nbuf := make([]byte, 1+uniform(t, "nb_bufsize", 600))
+				var n int
+				e := guard(func() error { var e error; n, e = nb.Read(nbuf); return e })
+				ops = append(ops, fmt.Sprintf("n%d=%d", len(nbuf), n))
+				nbGot = append(nbGot, nbuf[:n]...)
+				if isPanic(e) || (e != nil && e != io.EOF) || !bytes.Equal(nbGot[min(3, len(nbGot)):], nbWant[min(3, len(nbGot)):len(nbGot)]) {
+					rp["ops"] = ops
+					ev.Violation(t, "C07", rp, "the neighbour connection's stream is disturbed (read %d bytes, err=%v)", len(nbGot), e)
+				}
+				continue
+			}
 			doWrite := bpos < len(bstream) && (readDone || rapid.Bool().Draw(t, "op_write"))
 			if doWrite {
 				n := len(bstream) - bpos
